@@ -7,6 +7,15 @@
    members are black boxes here: [m0]/[m1] is what each member answers when asked
    directly, [u] what the unifier answered, [n0]/[n1] how many calls it made on each.
 
+   Content is handed over by the members as a STREAM (a few bytes per Read, unreadable once
+   closed, unreadable once the context of the member call has been cancelled; members that
+   are ociclients across HTTP hand over their response bodies), and the harness reads what
+   the unifier returns to its end: [RRead d data] is the descriptor with the bytes actually
+   read.  A reader returned WITHOUT error whose content cannot be read to the end is recorded
+   as [Panic], like a nil reader without error: it is neither of the two proper answers, so
+   no clause below accepts it (not even the ones that ask for a failure - a tag that
+   resolves to something unreadable is not a tag that fails).
+
    [CHist]: a history of calls through a unifier whose members are wrapped so that every
    call they receive, and its answer, is recorded.  For the model the members of each step
    ARE those recordings (a scripted registry that replays them and flags any call that is
